@@ -288,8 +288,11 @@ template<typename R, typename... Args> struct Sys {
         std::string k;
         if (okp) {
             if (o) apply(*o, true);
+            // cheap public observations are part of the canonical key: a router that answers differently although its tree looks the same (a cached value gone stale, say) is a different state and gets examined
+            k = fmt("d%zu:", router->depth());
             node_key(plain(*router).m_rootNode, k);
             k += "|"; for (auto &s : subs) if (s.live) k += fmt("%d@%d,", s.obs, s.key);      // which of the history's observers are live (ids matter to the oracle only)
+
             if (full) examine();
         }
         handles.clear(); router.reset();
